@@ -33,6 +33,12 @@ CHECKS = {
  "C08": ("DESIGN.md section 5 C08, section 2.9",
    "Symbolic-schedule bounded model checking of the real packetio.Buffer (and deadline) code: R reader goroutines, W writer goroutines, optionally Close and SetReadDeadline(past), one operation each; the scheduler explores product locations of the goroutines (all interleavings that reach the same product location are merged into one symbolic world whose guard is a formula over per-world choice variables), at the granularity of lock / channel / select operations. In every quiescent world the harness asserts: no reader is still parked in Read while a packet is buffered, after Close, or past its deadline; every accepted packet is delivered to exactly one reader or still buffered; EOF only after Close; timeouts only with a passed deadline. Counterexamples (the choice variables of the worlds on the path) are re-executed concretely and replayed natively under a schedule controller on instrumented sources.",
    "Bounded: 2 readers x 2 writers; 2 readers x 1 writer x Close; 1 reader x 1 writer x deadline (thorough adds 2x2xClose, 2x1xClosexdeadline, 3x2); empty packets, ring allocated before the goroutines start; goroutines atomic between scheduling points; timers/clock are a model; trusted: go/ssa, engine, z3 5.1.0."),
+ "C02": ("DESIGN.md section 5 C02, section 2.6",
+   "SMT check of the real NAT code (newNAT, translateOutbound, translateInbound, lookup/expiry/removal, chunk Clone/setSourceAddr) over histories of k datagrams with a symbolic NAT type (3 mapping x 3 filtering behaviours, symbolic lifetime), symbolic choice of internal endpoint and remote per event and symbolic clock advances; strings (map keys, addresses) are values of an algebraic datatype so key equality is decided structurally. A reference model indexed by (internal endpoint, destination class) is the oracle: same external address exactly while the same key's mapping lives, fresh address not held by any live mapping otherwise, external IP of the router, valid port, destination and payload unchanged; an allocation from any counter value (wrap-around of the dynamic port range included) next to a live mapping; 1:1 mode with two IP pairs.",
+   "Bounded: k = 3 (quick) / 4 (thorough) datagrams, 2 internal endpoints, 3 remotes, lifetime 1..1000; the instant exactly one lifetime after the last outbound is unconstrained; strings: IP.String / UDPAddr.String / Sprintf with constant format are injective constructors and ResolveUDPAddr their destructor (contract); time.Now is the model clock; trusted: go/ssa, engine, z3."),
+ "C03": ("DESIGN.md section 5 C03",
+   "Same harness as C02, inbound side: a datagram to an external address is forwarded iff a live mapping owns the address and the owner has sent through that mapping to a remote matching the configured filtering behaviour (any / same IP / same IP and port); it is then delivered to the creator's internal address and port with source and payload unchanged; everything else (never-allocated address, expired mapping, missing permission) is dropped. Because the reference model never refreshes on inbound traffic, a refused or forwarded inbound datagram that prolonged a mapping or created a permission shows up as a wrong answer later in the same history. 1:1 mode: paired IPs forwarded with the port preserved, unpaired dropped.",
+   "Bounded as C02 (k datagrams; a side effect of a refused datagram must show within the remaining events of the history)."),
 }
 
 def main():
